@@ -143,8 +143,11 @@ impl Selection {
             } else {
                 // check if it exists in the user map
                 if let Ok(attr) = map.get(set, var) {
+                    // roll back the cursor if the attribute cannot be written completely
+                    let start = cursor.position();
                     let mut writer = HeaderWriter::new(cursor);
                     if let Err(err) = writer.write_attribute(attr) {
+                        let _ = cursor.seek_to(start);
                         match err {
                             AttrWriteError::Cursor => return false, // out of space
                             AttrWriteError::BadAttribute(err) => {
